@@ -1,7 +1,7 @@
 (* C13 -- every message serialises: valid JSON, framed protobuf, agreeing values.
    Statements only; proofs in Proofs/FormatP.v, Proofs/RenderP.v. *)
 From Coq Require Import String List NArith Bool.
-From GF Require Import Base.Res Base.Bytes Model.Msg Model.Pb Model.Json Model.Render Spec.JsonGrammar Proofs.FormatP Proofs.RenderP.
+From GF Require Import Base.Res Base.Bytes Model.Msg Model.Pb Model.Json Model.Render Spec.JsonGrammar Spec.ParseIP Proofs.FormatP Proofs.RenderP Proofs.ParseIPP.
 Import ListNotations.
 Open Scope N_scope.
 
@@ -52,6 +52,22 @@ Theorem c13_rendered_ascii : forall b n a bits k,
   ascii7 (render_ip b) /\ ascii7 (mac_string n) /\ ascii7 (render_prefix a bits) /\ ascii7 (proto_name k) /\ ascii7 (etype_name k).
 Proof. intros. repeat split; [apply render_ip_ascii|apply mac_ascii|apply render_prefix_ascii|apply proto_name_ascii|apply etype_name_ascii]. Qed.
 Print Assumptions c13_rendered_ascii.
+
+(* JSON, text and protobuf describe the SAME address: the text form of EVERY 4- or 16-byte address reads back
+   (Spec/ParseIP.v: dotted decimal, hex groups with at most one "::", "::ffff:a.b.c.d") to exactly the bytes the
+   protobuf carries -- zero-run compression, IPv4-mapped form and leading-zero suppression lose nothing *)
+Theorem c13_address_text_exact : forall b, wfb b -> (length b = 4%nat \/ length b = 16%nat) ->
+  parse_ip (render_ip b) = Some b.
+Proof. exact render_ip_roundtrip. Qed.
+Print Assumptions c13_address_text_exact.
+
+Theorem c13_address_text_injective : forall a b, wfb a -> wfb b ->
+  (length a = 4%nat \/ length a = 16%nat) -> (length b = 4%nat \/ length b = 16%nat) -> render_ip a = render_ip b -> a = b.
+Proof. exact render_ip_injective. Qed.
+
+Theorem c13_mac_text_exact : forall n, n < 281474976710656 -> parse_mac (mac_string n) = n.
+Proof. exact mac_roundtrip. Qed.
+Print Assumptions c13_mac_text_exact.
 
 Example c13_render_examples :
   render_ip [32;1;13;184;0;0;0;0;0;0;0;0;0;0;0;1] = bytes_of_string "2001:db8::1"%string /\
